@@ -945,6 +945,45 @@ def _alias_step(f, blk, assigned, log):
     return False
 
 
+# ------------------------------------------------------------------------------------------------ 2f. array aliases
+def _array_alias(tree, log):
+    """N = X.attr  (N bound once, used only as the base of subscripts N[..]; X a parameter or local not rebound afterwards, X.attr
+    never assigned in the function)  ->  every N[..] written X.attr[..]: the alias names the same array, an update through it is
+    an update of X.attr"""
+    for f in [n for n in ast.walk(tree) if isinstance(n, ast.FunctionDef)]:
+        cnt = {}
+        for n in ast.walk(f):
+            if isinstance(n, ast.Name) and isinstance(n.ctx, (ast.Store, ast.Del)):
+                cnt[n.id] = cnt.get(n.id, 0) + 1
+        params = {a.arg for a in f.args.args}
+        for k, st in enumerate(list(f.body)):
+            if not (isinstance(st, ast.Assign) and len(st.targets) == 1 and isinstance(st.targets[0], ast.Name) and
+                    isinstance(st.value, ast.Attribute) and isinstance(st.value.value, ast.Name)):
+                continue
+            N, X, A = st.targets[0].id, st.value.value.id, st.value.attr
+            if cnt.get(N) != 1 or N in params or X == N:
+                continue
+            later = f.body[k + 1:]
+            if any(isinstance(x, ast.Name) and x.id == X and isinstance(x.ctx, (ast.Store, ast.Del)) for s_ in later for x in ast.walk(s_)):
+                continue
+            if any(isinstance(x, ast.Attribute) and x.attr == A and isinstance(x.ctx, (ast.Store, ast.Del)) and
+                   isinstance(x.value, ast.Name) and x.value.id == X for x in ast.walk(f)):
+                continue
+            uses = [x for x in ast.walk(f) if isinstance(x, ast.Name) and x.id == N and isinstance(x.ctx, ast.Load)]
+            subs = {id(x.value) for x in ast.walk(f) if isinstance(x, ast.Subscript)}
+            if not uses or any(id(u) not in subs for u in uses):
+                continue
+            if not any(isinstance(x, ast.Subscript) and isinstance(x.ctx, ast.Store) and isinstance(x.value, ast.Name) and
+                       x.value.id == N for x in ast.walk(f)):
+                continue          # read-only views keep their name: only an alias written through is an update of X.attr
+            new = _subst(later, {N: st.value})
+            f.body[k:] = new
+            for s_ in f.body:
+                ast.fix_missing_locations(s_)
+            log.append((f.name, "array-alias:%s=%s.%s" % (N, X, A)))
+            break
+
+
 def normalise(tree, modname, inventory):
     log = []
     inl = _Inliner(tree, modname, inventory, log)
@@ -956,6 +995,7 @@ def normalise(tree, modname, inventory):
     _Aug(log).visit(tree)
     _builder_dicts(tree, log)
     _callable_alias(tree, log)
+    _array_alias(tree, log)
     ast.fix_missing_locations(tree)
     return log
 
